@@ -91,7 +91,7 @@ func runWorld(a *artefacts, spec *simrt.Spec) *worldRun {
 	ctx, cancel := context.WithTimeout(context.Background(), realWallLimit)
 	defer cancel()
 	cmd := exec.CommandContext(ctx, a.Sim)
-	cmd.Env = []string{"VERIF_WORLD=" + sp, "VERIF_RESULT=" + rp, "GOMAXPROCS=2", "HOME=/nonexistent", "PATH=/nonexistent"}
+	cmd.Env = []string{"VERIF_WORLD=" + sp, "VERIF_RESULT=" + rp, "GOMAXPROCS=" + worldGOMAXPROCS(spec), "GOGC=400", "HOME=/nonexistent", "PATH=/nonexistent"}
 	cmd.Dir = d
 	var so, se bytes.Buffer
 	cmd.Stdout, cmd.Stderr = &so, &se
@@ -318,4 +318,17 @@ func runSpecs(a *artefacts, kind string, specs []*simrt.Spec, keep bool) ([]*out
 		return nil, fmt.Errorf("batch returned %d outcomes for %d specs", len(r.Outcomes), len(specs))
 	}
 	return r.Outcomes, nil
+}
+
+// worldGOMAXPROCS: the real parallelism of a simulated process does not matter
+// (one task runs at a time); 1 is cheapest.  The determinism self-tests vary it
+// through the label of the spec.
+func worldGOMAXPROCS(sp *simrt.Spec) string {
+	switch sp.Label {
+	case "gomaxprocs=4":
+		return "4"
+	case "gomaxprocs=16":
+		return "16"
+	}
+	return "1"
 }
